@@ -316,10 +316,37 @@ func errName(err error) string {
 	return "error:" + err.Error()
 }
 
+// parseCfg: "open memthr bs l0target ratio immbuf [skiplistMaxLevel skiplistP*100 fileMode(octal)]"; a zero field is left
+// to Config.validate (the default value); the three optional fields default to 4, 0.5 and 0
 func parseCfg(t []string) originium.Config {
 	a := func(i int) int { v, _ := strconv.Atoi(t[i]); return v }
-	return originium.Config{SkipListMaxLevel: 4, SkipListP: 0.5, MemtableByteThreshold: a(1), DataBlockByteThreshold: a(2),
+	cfg := originium.Config{SkipListMaxLevel: 4, SkipListP: 0.5, MemtableByteThreshold: a(1), DataBlockByteThreshold: a(2),
 		L0TargetNum: a(3), LevelRatio: a(4), ImmutableBuffer: a(5)}
+	if len(t) >= 9 {
+		cfg.SkipListMaxLevel = a(6)
+		cfg.SkipListP = float64(a(7)) / 100
+		fm, _ := strconv.ParseUint(t[8], 8, 32)
+		cfg.FileMode = os.FileMode(fm)
+	}
+	return cfg
+}
+
+// cfgBlockSize: the data block threshold the engine uses for a configuration (zero = the default)
+func cfgBlockSize(cfg originium.Config) int {
+	if cfg.DataBlockByteThreshold <= 0 {
+		return originium.DefaultConfig.DataBlockByteThreshold
+	}
+	return cfg.DataBlockByteThreshold
+}
+
+// wideCfg: one configuration in four is drawn from the whole range of valid values, defaults (zero fields) included
+func wideCfg(r *rand.Rand, narrow string) string {
+	if r.Intn(4) != 0 {
+		return narrow
+	}
+	pick := func(v ...int) int { return v[r.Intn(len(v))] }
+	return fmt.Sprintf("%d %d %d %d %d %d %d %s", pick(0, 40, 60, 90, 150, 400, 2000, 1<<20), pick(0, 1, 10, 40, 200, 4096, 1<<16), pick(0, 1, 2, 3, 5, 6), pick(0, 1, 2, 3, 4, 10),
+		pick(0, 1, 2, 3, 10), pick(0, 1, 2, 4, 9, 32), pick(0, 1, 50, 99, 100), []string{"0", "700", "755", "777"}[r.Intn(4)])
 }
 
 type dbRunExt struct {
@@ -395,7 +422,7 @@ func dbExec(ops []string) (dops []string, res []string) {
 		switch t[0] {
 		case "open":
 			cfg := parseCfg(t)
-			r.bs = cfg.DataBlockByteThreshold
+			r.bs = cfgBlockSize(cfg)
 			db, err := originium.Open(dir, cfg)
 			if err != nil {
 				panic(err)
@@ -730,7 +757,7 @@ func dbExec(ops []string) (dops []string, res []string) {
 		case "reopen":
 			cfg := parseCfg(t)
 			oldDBs = append(oldDBs, r.db)
-			r.bs = cfg.DataBlockByteThreshold
+			r.bs = cfgBlockSize(cfg)
 			files, _ := filepath.Glob(filepath.Join(dir, "*"))
 			var left []string
 			for _, f := range files {
@@ -770,7 +797,7 @@ func dbGen(r *rand.Rand, n int, length int, withReopen bool) []Case {
 	var cases []Case
 	for c := 0; c < n; c++ {
 		cfg := func() string {
-			return fmt.Sprintf("%d %d %d %d %d", []int{40, 60, 90, 150, 400, 2000}[r.Intn(6)], []int{1, 10, 40, 200}[r.Intn(4)], 1+r.Intn(3), 1+r.Intn(3), r.Intn(4))
+			return wideCfg(r, fmt.Sprintf("%d %d %d %d %d", []int{40, 60, 90, 150, 400, 2000}[r.Intn(6)], []int{1, 10, 40, 200}[r.Intn(4)], 1+r.Intn(3), 1+r.Intn(3), r.Intn(4)))
 		}
 		ops := []string{"open " + cfg()}
 		tags := map[string]bool{}
